@@ -33,6 +33,7 @@ class ShapeResult:
     term: tuple | None = None
     problems: list = field(default_factory=list)      # def-use / walrus problems
     ops: list = field(default_factory=list)           # operations applied, with operand terms
+    reads: list = field(default_factory=list)         # item reads with the test occurrences dominating them
     unresolved_names: list = field(default_factory=list)
     leftover_placeholder: bool = False
     spec_error: str | None = None
@@ -79,6 +80,7 @@ class GenCheck:
             return out
         out.problems = list(T.problems)
         out.ops = list(T.ops)
+        out.reads = list(T.reads)
         # names
         from .terms import parse_expr
         tree = parse_expr(code)
@@ -332,3 +334,32 @@ def vocabulary(res: ShapeResult):
             continue
         out.append((op, operands))
     return out
+
+
+def _container_of_read(op, operands):
+    """The part of the checked object an item read takes its item from."""
+    x = operands[0]
+    if op != 'subscript':
+        # next(iter(X)) / next(iter(X.values())): strip the iter() call, then one view-method call
+        if isinstance(x, tuple) and len(x) > 2 and x[0] == 'call' and x[1] == 'iter':
+            x = x[2]
+        if isinstance(x, tuple) and len(x) >= 2 and x[0] == 'call' and isinstance(x[1], tuple) and x[1] and x[1][0] == 'attr':
+            x = x[1][1]
+    return x
+
+
+def repeated_item_reads(res: ShapeResult):
+    """Item reads evaluated at two places under the same occurrence of the container's type test, i.e. by one container node
+    of the hint: [(rendered read, times)]."""
+    seen = {}
+    for op, operands, guards in getattr(res, 'reads', []):
+        if not any(derives_from_root(o) or o == ('root',) for o in operands):
+            continue
+        X = _container_of_read(op, operands)
+        ctx_ = frozenset(gid for gid, t in guards
+                         if isinstance(t, tuple) and len(t) >= 3 and t[0] == 'call' and t[1] == 'isinstance' and t[2] == X)
+        key = (op, operands, ctx_)
+        seen[key] = seen.get(key, 0) + 1
+    from .terms import show
+    opn = lambda op: op if isinstance(op, str) else ':'.join(map(str, op))
+    return len(seen), sorted((f'{opn(op)}({", ".join(show(o)[:160] for o in operands)})', n) for (op, operands, _), n in seen.items() if n > 1)
